@@ -160,6 +160,13 @@ Fixpoint rlookup (i : N) (l : list (str * N)) : option str :=
   | (u, j) :: l' => if N.eqb i j then Some u else rlookup i l'
   end.
 
+(** the read side (getIDForURI, behind GetEntity / relation queries / GetPredicateID): the id record of the
+    identifier, whatever its value - the sequence starts at 0, so 0 is an id like any other.
+    [read_id_nz] is the reading "an id of 0 means there is none" (a seeded change), kept only to refute it. *)
+Definition read_id (st : idstate) (u : str) : option N := slookup u (disk st).
+Definition read_id_nz (st : idstate) (u : str) : option N :=
+  match read_id st u with Some 0 => None | r => r end.
+
 (** ** The store as the driver sees it: namespaces + ids + which entities a
     dataset holds (with the one reference the driver's entities carry). *)
 (** order of the two commits at the end of Store.ExecuteTransaction.  [IdsFirst] is what the code
